@@ -29,6 +29,10 @@ class SimKNXDevice:
         self.free_level = free_level
         self.mask = mask
         self.script = script or {}     # adversarial transport-layer behaviours (C43)
+        self.base_script = dict(self.script)
+        self.script_seq: list[dict[str, Any]] = list(self.script.get("per_request") or [])   # overrides per request ordinal
+        self.req_ordinal = -1
+        self.last_data: dict[int, tuple[int, bytes]] = {}     # per peer: (number, apdu) of the data frame sent last
         self.conn: dict[int, dict[str, int]] = {}
         self.log: list[tuple[float, str, Any]] = []
         self.restarts = 0
@@ -73,6 +77,10 @@ class SimKNXDevice:
             apdu = bytes((t0 & 0x03,)) + tpdu[1:]
             if seq == st["rx"]:
                 st["rx"] = (st["rx"] + 1) & 0xF
+                self.req_ordinal += 1
+                if self.script_seq:
+                    over = self.script_seq[self.req_ordinal] if self.req_ordinal < len(self.script_seq) else {}
+                    self.script = {**self.base_script, **(over or {})}
                 self._ack(src, seq)
                 self.note("data", (src, seq, apdu.hex()))
                 self._apdu_connected(src, apdu)
@@ -105,6 +113,7 @@ class SimKNXDevice:
             seq = st["tx"]
             st["tx"] = (st["tx"] + 1) & 0xF
         tpdu = bytes((0x40 | (seq << 2) | (apdu[0] & 0x03),)) + apdu[1:]
+        self.last_data[dst] = (seq, apdu)
         self.bus.emit(self, dst, tpdu, lat=lat)
 
     def _apdu_connected(self, src, apdu: bytes):
@@ -127,7 +136,13 @@ class SimKNXDevice:
         else:
             return
         lat = self.script.get("resp_lat")
-        if rb == "normal":
+        if rb == "prev+normal":
+            # the device repeats the data frame it sent last (it never saw an acknowledgement for it), then answers
+            prev = self.last_data.get(src)
+            if prev is not None:
+                self.send_data(src, prev[1], seq=prev[0], lat=0.0005)
+            self.send_data(src, resp, lat=lat if lat is not None else self.bus.lat + 0.002)
+        elif rb == "normal":
             self.send_data(src, resp, lat=lat)
         elif rb == "dup":
             st = self.conn.get(src)
